@@ -3,10 +3,12 @@ open GlueVerif.C17
 #print axioms inv_init
 #print axioms inv_spec
 #print axioms find_spec
-#print axioms step_inv_partial
-#print axioms inv_reachable_partial
-#print axioms messages_exact_partial
-#print axioms trace_ok_partial
+#print axioms step_inv
+#print axioms inv_reachable
+#print axioms messages_exact
+#print axioms trace_ok
 #print axioms remove_coordinate_breaks
 #print axioms silent_replace
 #print axioms update_id_merges
+#print axioms scalar_dataset_breaks
+#print axioms rename_of_removed_id
